@@ -405,6 +405,8 @@ class WritableStream(io.RawIOBase):
             # Expedited download
             data = self._exp_data + bytes(b)
             if len(data) > 4:
+                # Nothing of a refused write must be sent by close()
+                self._exp_data = b""
                 raise AssertionError("More data received than expected")
             if len(data) < self.size:
                 # Not enough data provided yet, keep it until the rest
